@@ -75,9 +75,8 @@ def coq_expr(tab, e):
         from common import cq
         return f"(@wlift QcSR (Some {e['x']}%nat) {cq(Fraction(e['w']))})"
     if op == "from_string":
-        xs = e["xs"]
-        m = {"nT": 3, "init": [[0, "1/1"]], "final": [[len(xs), "1/1"]], "arcs": [[i, a, i + 1, "1/1"] for i, a in enumerate(xs)]}
-        return tab.machine(m)
+        # the Coq model of WFSA.from_string (C12_from_string is about this definition)
+        return f"(@StarStringProofs.from_string QcSR {coq_str(e['xs'])} (mkq 1 1))"
     raise ValueError(op)
 
 
@@ -127,7 +126,7 @@ def run(ctx):
     except TW.Refuse as e:
         ctx.obligation("translate_wfsa", False, f"translator refused: {e}")
         tr_ok = False
-    ok, out = ctx.build(["proofs/WfsaProofs.vo", "proofs/RationalOps.vo", "proofs/GenWfsaBridge.vo", "model/EpsSpec.vo"]) if tr_ok else (False, "translator refused")
+    ok, out = ctx.build(["proofs/WfsaProofs.vo", "proofs/RationalOps.vo", "proofs/GenWfsaBridge.vo", "proofs/StarStringProofs.vo", "model/EpsSpec.vo"]) if tr_ok else (False, "translator refused")
     if ok:
         ctx.prove("props/C12.v")
     else:
@@ -181,7 +180,7 @@ def run(ctx):
         if ctx.rng.random() < 0.5:
             es.append({"op": "reverse", "a": {"op": "from_string", "xs": []}})
         ctx.dist("reverse-isolated-state")
-    tab = WTable(ctx, "expr")
+    tab = WTable(ctx, "expr", extra_imports="From GV.proofs Require StarStringProofs.")
     strs = [list(x) for x in F.strings(nT, 3)]
     for i, e in enumerate(es):
         ce = coq_expr(tab, e)
